@@ -671,6 +671,9 @@ def chain_case(r):
         c.ops = [['find_dist_entry', 'dist.tar', dirs[D]]]
     else:
         c.ops = [[api, target if not tamper.startswith('remove') else dirs[D] + '/f']]
+    if api in ('verify', 'verify-sub') and _r2.random() < 0.4:
+        # a last-verification time later than every mtime of the tree: data files that kept their size may be skipped, Manifests may not
+        c.ops[-1][3] = [1700000000]
     c.meta['api'] = api
     # the same loader has answered harmless questions about the untouched top level before (what `gemato verify` does first:
     # find_timestamp; lookups of top-level files): nothing they load may become trusted without its check
